@@ -156,5 +156,22 @@ func runC02(c *Ctx) {
 				f.Impl = clip(fmt.Sprintf("exit %d\n%s\n%s", bc.Code, bc.Stdout, bc.Stderr))
 			}
 		}, "balance", bc.F.Wire(today()), bc.J.Wire())
+		// monitor: the real output against the independent ledger specification (Lean Spec.ledgerEntries)
+		bt.Add(func(spec string) {
+			if spec == "unsupported" {
+				return
+			}
+			ok := impl == modelOutcomeCanon(spec)
+			detail := ""
+			if !ok {
+				detail = "real output:\n" + bc.Stdout + bc.Stderr + "\nledger specification:\n"
+				if strings.HasPrefix(spec, "ok ") {
+					detail += UnHex(strings.TrimPrefix(spec, "ok "))
+				} else {
+					detail += spec
+				}
+			}
+			c.Monitor("balance", bc.Idx, "report_equals_ledger", in, ok, detail)
+		}, "balance-spec", bc.F.Wire(today()), bc.J.Wire())
 	}
 }
